@@ -217,6 +217,14 @@ def run_case(case):
                         labels.add("saturated")
                         if unequal:
                             nontrivial = True
+                        if not exact:
+                            # arbitrary floats: a move beyond an edge lands EXACTLY on that edge (float addition is monotonic,
+                            # so old + delta cannot round to the inner side of the edge it exceeds)
+                            landed = Fraction(actual(i)[ax])
+                            if landed != new:
+                                raise Violation("not-saturated", f"{where}: world {kind}{[str(e) for e in ext]} (clamping): a{i} axis {ax} moved from "
+                                                                 f"{float(pos[i][ax])!r} by {float(vals[ax][1])!r} and stands at {float(landed)!r}, "
+                                                                 f"the edge is {float(new)!r}")
                 pos[i][ax] = new
         elif kind_op == "move_to":
             vals = [num(v) for v in (list(op["pos"]) + [0, 0, 0])[:3]]
@@ -275,7 +283,7 @@ def strategy(tier):
             if exact:
                 ext = [draw(st.sampled_from([0, 8, 12, 40, 64, 100, 512])) for _ in range(3)]
             else:
-                ext = [draw(wone_of(st.just(0.0), st.floats(1.0, 1000.0, allow_nan=False))) for _ in range(3)]
+                ext = [draw(wone_of(st.just(0.0), st.floats(1.0, 1000.0, allow_nan=False), st.sampled_from([7.3, 10.1, 12.6, 99.9, 1.1]))) for _ in range(3)]
         elif kind == "discrete":
             ext = [draw(st.sampled_from([0, 1, 2, 3, 5, 7, 50])) for _ in range(3)]
         elif kind == "grid":
